@@ -134,7 +134,33 @@ def main():
                 else:
                     rec['verdicts'][name + ':' + mode] = run_assert(name, [execution, text], {'exact_strings': exact})
         outs.append(rec)
-    json.dump({'results': out, 'unit_tests': uts, 'n_values': len(VALUES), 'outputs': outs,
+    # equality_test itself, on raw values, for the Coq model of it
+    eqs = []
+    if data.get('equality'):
+        from pedal.utilities.comparisons import equality_test, _normalize_string
+        for i, j, exact, delta in data['equality']:
+            try:
+                eqs.append(bool(equality_test(VALUES[i], VALUES[j], exact, delta)))
+            except Exception as e:
+                eqs.append('raise:' + type(e).__name__)
+        norm_ids = {}
+
+        def strings_of(v):
+            if isinstance(v, str):
+                yield v
+            elif isinstance(v, dict):
+                for k, x in v.items():
+                    yield from strings_of(k)
+                    yield from strings_of(x)
+            elif isinstance(v, (list, tuple, set, frozenset)):
+                for x in v:
+                    yield from strings_of(x)
+        for v in VALUES:
+            for t in strings_of(v):
+                norm_ids[t] = repr(_normalize_string(t))
+    else:
+        norm_ids = {}
+    json.dump({'results': out, 'unit_tests': uts, 'n_values': len(VALUES), 'outputs': outs, 'equality': eqs, 'normal_forms': norm_ids,
                'reprs': [('nan' if isinstance(v, float) and v != v else repr(v)) for v in VALUES]}, open(sys.argv[1], 'w'))
 
 
